@@ -128,6 +128,8 @@ class ModCtx:
         if memory:
             m.mems.append((1, 2, False))
             m.exports.append(('mem', 'memory', 0))
+            # a passive segment, so that memory.init / data.drop exist as (dead) instructions in generated code
+            m.datas.append(dict(mode='passive', bytes=b'passive-segment-of-generated-programs'))
         self.globals = []  # (idx, type) mutable
         m.globals.append((I32, True, [('i32.const', 0)]))
         self.budget = 0
@@ -470,6 +472,40 @@ class FuncGen:
         operands come from the polymorphic stack, its results are dropped. Immediates use byte values that would be structural
         opcodes (end, else, block, loop, if, br, ...) if a decoder skipped them incorrectly."""
         r = self.r
+        if r.random() < 0.3:
+            # instructions with other kinds of immediates: indices (function, type, local, global, data segment, label) and the reserved
+            # bytes of the bulk-memory instructions. Operands come from the polymorphic stack; concrete results are dropped.
+            kinds = ['local', 'global', 'br']
+            if self.callees:
+                kinds.append('call')
+            if self.c.mod.tables and self.c.mod.types:
+                kinds += ['call_indirect', 'call_indirect']
+            if self.c.has_mem and self.c.mod.datas:
+                kinds += ['memory.init', 'data.drop', 'memory.copy', 'memory.fill']
+            k = r.choice(kinds)
+            if k == 'call':
+                idx, ps, res = r.choice(self.callees)
+                return [('call', idx)] + ([('drop',)] if res else [])
+            if k == 'call_indirect':
+                ti = r.randrange(len(self.c.mod.types))
+                return [('call_indirect', ti, 0)] + [('drop',)] * len(self.c.mod.types[ti][1])
+            if k == 'memory.init':
+                return [('memory.init', 0)]
+            if k == 'data.drop':
+                return [('nop',)]          # (dropping the segment for real would change later live memory.init; keep the opcode table honest elsewhere)
+            if k in ('memory.copy', 'memory.fill'):
+                return [(k,)]
+            if k == 'local':
+                li = r.randrange(len(self.locals))
+                return r.choice([[('local.get', li), ('drop',)], [('local.set', li)], [('local.tee', li), ('drop',)]])
+            if k == 'global':
+                gs = self.c.globals
+                if gs:
+                    gi, gt = r.choice(gs)
+                    return r.choice([[('global.get', gi), ('drop',)], [('global.set', gi)]])
+                return [('nop',)]
+            depth = r.randrange(len(self.labels) + 1)
+            return [('br', depth)] if r.random() < 0.6 else [('br_table', [depth] * r.randint(0, 4), depth)]   # (all targets of a br_table must have one arity, in dead code too)
         name = r.choice(_ZOO_M if (self.c.has_mem and r.random() < 0.6) else _ZOO_PLAIN)
         prefix, code, imm, params, results = wasm.OPS[name]
         if imm == 'm':
